@@ -233,7 +233,10 @@ def to_trace(tid, init_cur, init_n, records):
             ids[x] = len(ids) + 1
         return ids[x]
     evs = []
+    known = {"events.subscribe", "set_backend.swap", "events.trigger", "events.call", "events.flush", "set_backend.fired", "set_backend.done"}
     for r in records:
+        if r["ev"] not in known:       # records of other hooks (fit.*, ...) belong to other trace specifications
+            continue
         e = {"ev": r["ev"]}
         if r["ev"] == "events.subscribe":
             e.update(event=r["event"], owner=rid(r.get("owner")), n=r["n"])
